@@ -100,11 +100,18 @@ func rtGenOverlayTree(r *Rng) ([]rtNode, map[string]int) {
 	for i, nd := 0, 1+r.intn(4); i < nd; i++ {
 		d := g.pickDir(4)
 		kind, maj, min := byte('c'), uint32(0), uint32(0)
-		switch r.intn(5) {
+		switch r.intn(6) {
 		case 0:
 			maj, min = 0, uint32(1+r.intn(300))
 		case 1:
 			maj, min = uint32(1+r.intn(300)), 0
+		case 5:
+			// numbers whose low bits are all zero: 0/0 only to a decoder that drops the high bits
+			if r.chance(1, 2) {
+				maj, min = 0, []uint32{256, 65536, 196608, 1 << 19}[r.intn(4)]
+			} else {
+				maj, min = []uint32{256, 2048}[r.intn(2)], 0
+			}
 		case 2:
 			kind = 'b'
 		case 3:
